@@ -16,13 +16,22 @@ RULE = ("the knut binary built from the working tree, run in a materialised file
         "(a third of them, same journal, tree, window, valuation and mapping) through transcode [-v V], portfolio weights "
         "(csv or text, optional universe file incl. a commodity in two classes, mappings on class paths) and portfolio returns; "
         "(25%) arbitrary bytes, hostile fragments and byte-mutated journals through all commands; (25%) every flag "
-        "absent/negative/huge/inverted/malformed on a valid journal; (9%) include graphs over raw files incl. 200-wide and "
+        "absent/negative/huge/inverted/malformed on a valid journal, in every form of pflag's argument list (--name value, "
+        "--name=value, -x value, -xvalue, -x=value, clustered shorthands, explicit booleans, --, -, help, base prefixes and "
+        "underscores in integers), with the exit class predicted by Model/Flags.v + Model/CliFlags.v (flagspec flg); (9%) include graphs over raw files incl. 200-wide and "
         "300-deep ones; (1%) --digits of 5e8..2^31-1 and a daily accrual over years 1..9999.  Spec verdict (Spec.FailSpec.clean_run_b, extracted) on the "
         "observation: class in {OK, ERR}; ERR implies a diagnostic on stderr and, for balance/print/transcode/infer/check, "
         "empty stdout; and, when the whole tree is structured, a command that follows includes must not succeed if the "
         "include graph fails to load (missing/unreadable/unparseable file or a cycle: CliSafe.load_error).  Inside the modelled space the class predicted by the repaired model (Model/CliSafe.v and "
-        "Model/CliSafeMore.v - check, print, balance, transcode, weights, returns - over Model/Loader.v) must equal the observed class.  Non-trivial: the command got past flag parsing, i.e. the "
-        "observation is not a usage error (approximated: the case is not a flag-family case that ended in ERR); distinct by input.")
+        "Model/CliSafeMore.v - check, print, balance, transcode, weights, returns - over Model/Loader.v) must equal the observed class; in the flag family the class "
+        "is that of CliFlags.run_argv on the argument list (usage error, help, or the command's class), '-' where the model has no opinion (an "
+        "expression outside the modelled regexp sublanguage or whose meaning Model/Str.v cannot express, a universe file that exists, --digits "
+        "beyond 1000).  Second generator (C14flag, 20000 values per quick run): flag values given in-process to DateFlag.Set, RegexFlag.Set, "
+        "MappingFlag.Set, pflag's int/int32/bool Set and the commodity registry; accepted/rejected (syntax or range), the value, and for "
+        "expressions the matches on 17 probe strings must equal Flags.parse_value / rx_sem; spec verdict: Flags.value_in_range on the value "
+        "the implementation accepted.  Non-trivial: the command got past flag parsing, i.e. the "
+        "observation is not a usage error (approximated: the case is not a flag-family case that ended in ERR); a flag value of the second "
+        "generator counts when the model has an opinion on it; distinct by input (the evidence lists binary runs and flag values separately).")
 
 TRUSTED_BASE = [
     "Coq 8.16.1 kernel, vm_compute (witnesses)",
@@ -34,6 +43,11 @@ TRUSTED_BASE = [
     "tied to the code by the predicted-class correspondence of this check (and, for the output bytes, by C01-C03, C09, C16, C20)",
     "format and infer: the theorems are about Model/Parser.v, Model/SynPrinter.v, Model/BayesScore.v, tied to the code by the "
     "checks C07, C08, C15; here the two commands are only run on hostile inputs",
+    "Model/Flags.v is a hand transcription of strconv (go1.23.5 atoi.go), time.Parse for the layout 2006-01-02, pflag v1.0.5 "
+    "(flag.go parseArgs and below, int.go, int32.go, bool.go), cobra v1.7.0 (Command.execute up to Run, flag groups) and cmd/flags; "
+    "the flag tables of the eight commands are copied from their setupFlags; tied to the code by the C14.flag value op and the "
+    "predicted flag family of this check.  regexp/syntax is classified on a sublanguage only (rx_class), never trusted outside it",
+    "harness c14flags.go: the in-process calls and the rendering of accepted values",
     "the Go runtime: nil dereference, slice bounds, allocation, goroutine leaks, the parser on arbitrary bytes are sampled, not proved",
 ]
 ASSUMPTIONS = [
@@ -41,6 +55,7 @@ ASSUMPTIONS = [
     "the harness runs as root in this sandbox, where chmod 000 is not enforced: 'unreadable' files are materialised as "
     "directories (a read error of another kind)",
     "raw (non-structured) files inside a predicted case are drawn from a fixed list of texts that knut rejects",
+    "the run date (date.Today(), the default of --to) is later than every date in the generated journals: the model is given 9999-12-31",
     "10 s / 2 GiB are the operational meaning of 'hangs' / 'exhausts memory' on inputs of at most a few hundred KiB",
 ]
 TECHNIQUE = ("Coq proof about a hand-written Gallina model (include loader with fuel, pinned and repaired; explicit guard predicate "
@@ -55,13 +70,20 @@ LEVEL_TEXT = ("Coq (closed under the global context): C14_load_terminates (repai
               "witness per guard (C14_pinned_panics_refuted_*); C14_no_panic_repaired(_more)(_fs) for every input; "
               "C14_repaired_agrees(_more); for format and infer: C14_format_total, C14_infer_total, C14_parse_total (never "
               "CmdPanic / CmdOutOfFuel / InferBad / ParseFuel, on any byte string; the exit class is a function of 'the files "
-              "parse'); C14_error_empty_stdout(_more)(_syntax) by the result types.  Partial: what only the Go runtime can "
+              "parse'); C14_error_empty_stdout(_more)(_syntax) by the result types; flag handling (Model/Flags.v, "
+              "CliFlags.v): C14_flag_error_is_clean (a rejected command line ends the command before Run in every file system: no panic, no "
+              "success), C14_rejected_value_rejects / C14_rejected_value_ends_command (a rejected value anywhere on the command line), "
+              "C14_accepted_values_in_range, C14_flags_total (bool, int, int32, date, string flags) and C14_flags_total_rx_partial, "
+              "C14_int_flag_range, C14_mapping_flag_iff, C14_mapping_flag_unknown, C14_accepted_mapping_guard.  Partial: what only the Go runtime can "
               "exhibit is sampled on the binary (quick ~600 runs, thorough 60000).")
 LEVEL_NOTE = ("The unconditional statement is false of the pinned code (findings F5 F8 F9 F12 F17 F19) and is proved of the "
               "repaired model for all seven commands (check, balance, print, transcode, portfolio weights/returns at the "
-              "directive level over the include loader; format and infer at the byte level); flag parsing (cobra, regular "
-              "expressions, dates, --digits) is not modelled and only sampled, and the loading commands start from parsed "
-              "directives (the parser's totality is C14_parse_total / C07); the exit class of transcode, weights and returns "
+              "directive level over the include loader; format and infer at the byte level); flag handling is modelled as far as "
+              "it is knut's own code and the value syntax of pflag/strconv/time that decides error versus success (every value parser "
+              "total and proved in range; the argument list and cobra's validation; the exit class of the flag family predicted and "
+              "compared on every run), except regexp.Compile, which is classified on a sublanguage only (no opinion outside it; the "
+              "statements about the two kinds that compile an expression carry that third alternative), and the YAML reader of "
+              "--universe; the loading commands start from parsed directives (the parser's totality is C14_parse_total / C07); the exit class of transcode, weights and returns "
               "is compared with the model's inside the modelled flag space like that of check, print, balance; `portfolio "
               "returns` prints while it processes, so its model describes stdout of successful runs only (the property does "
               "not list it among the commands whose failure leaves stdout empty); fuel-bounded recursion of the price "
@@ -70,8 +92,8 @@ LEVEL_NOTE = ("The unconditional statement is false of the pinned code (findings
 
 def plan(tier, seed):
     if tier == "quick":
-        return [("C14", seed, 600, [])]
-    return [("C14", seed + k, 6000, []) for k in range(10)]
+        return [("C14", seed, 600, []), ("C14flag", seed, 20000, [])]
+    return [("C14", seed + k, 6000, []) for k in range(10)] + [("C14flag", seed, 1000000, [])]
 
 
 def search_plan(seed):
@@ -85,24 +107,46 @@ def _class(obs):
 
 def compare(c):
     """inside the modelled space the predicted class must be the observed one; elsewhere only the spec verdict counts"""
+    if c.op == "C14.flag":
+        # a flag value: accepted/rejected and the value must agree; "?" = outside the modelled regexp sublanguage,
+        # "ok m=?" = the expression compiles but Model/Str.v cannot express what it matches
+        if c.model == "?":
+            return True
+        if c.model == "ok m=?":
+            return (c.observed or "").startswith("ok m=")
+        return c.model == c.observed
     if c.model == "-":
         return True
     return _class(c.observed) in c.model.split("|")
 
 
 def nontrivial(c):
+    if c.op == "C14.flag":
+        return c.model != "?"
     cl = _class(c.observed)
     if cl == "OK":
         return True
     parts = c.input.split(" # ")
-    hostile_flags = len(parts) > 2 and parts[1].startswith("raw") and "empty.knut".encode().hex() in parts[2]
+    hostile_flags = len(parts) > 1 and parts[1].startswith("flg")
     return not (hostile_flags and cl == "ERR")
 
 
 def distribution(cases):
     d = {"by_cmd": {}, "by_class": {}, "predicted": 0, "predicted_err": 0, "predicted_by_cmd": {},
-         "trees": {"single": 0, "multi": 0, "cyclic_or_bad": 0}, "raw_flag_cases": 0, "signatures": {}}
+         "trees": {"single": 0, "multi": 0, "cyclic_or_bad": 0}, "raw_flag_cases": 0, "signatures": {},
+         "flag_family": {"cases": 0, "predicted": {}, "no_opinion": 0},
+         "flag_values": {}}
     for c in cases:
+        if c.op == "C14.flag":
+            kind = c.input.split(" ")[0]
+            fv = d["flag_values"].setdefault(kind, {"accepted": 0, "rejected": 0, "no_opinion": 0})
+            if c.model == "?":
+                fv["no_opinion"] += 1
+            elif (c.observed or "").startswith("ok"):
+                fv["accepted"] += 1
+            else:
+                fv["rejected"] += 1
+            continue
         parts = (c.input.split(" # ") + ["", ""])[:3]
         d["by_cmd"][parts[0]] = d["by_cmd"].get(parts[0], 0) + 1
         cl = _class(c.observed)
@@ -117,6 +161,13 @@ def distribution(cases):
         if re.search(r"(^| )[UDF]:", parts[2]) and n > 1:
             d["trees"]["cyclic_or_bad"] += 1
         d["raw_flag_cases"] += parts[1].startswith("raw")
+        if parts[1].startswith("flg"):
+            ff = d["flag_family"]
+            ff["cases"] += 1
+            if c.model == "-":
+                ff["no_opinion"] += 1
+            else:
+                ff["predicted"][c.model] = ff["predicted"].get(c.model, 0) + 1
         m = re.search(r"sig=(\S+)", c.observed or "")
         if m:
             d["signatures"][m.group(1)] = d["signatures"].get(m.group(1), 0) + 1
